@@ -43,7 +43,7 @@ def read_ndjson(path):
 
 def run_ddsmt(workdir, input_text, spec, opts=(), entry='launcher',
               timeout=180, ext='.smt2', env_extra=None, cmd_extra=(),
-              cc_spec=None, pre_outfile=None, popen_hook=None, prefix=None):
+              cc_spec=None, pre_outfile=None, popen_hook=None, prefix=None, mangle=None):
     """One ddSMT session in `workdir` (created; caller removes it)."""
     os.makedirs(workdir, exist_ok=True)
     tmp = os.path.join(workdir, 'tmp')
@@ -74,6 +74,22 @@ def run_ddsmt(workdir, input_text, spec, opts=(), entry='launcher',
         opts += ['-c', f'{PRED} {ccfile}']
     evlog = os.path.join(workdir, 'events.ndjson')
     ddargs = opts + [infile, outfile, PRED, specfile] + list(cmd_extra)
+    if mangle == 'input-missing':
+        os.remove(infile)
+    elif mangle == 'input-is-directory':
+        os.remove(infile)
+        os.makedirs(infile)
+    elif mangle == 'command-missing':
+        ddargs = opts + [infile, outfile]
+    elif mangle == 'command-not-a-file':
+        ddargs = opts + [infile, outfile,
+                         os.path.join(workdir, 'no-such-command'), specfile]
+    elif mangle == 'command-not-executable':
+        ne = os.path.join(workdir, 'not-executable')
+        with open(ne, 'w') as f:
+            f.write('#!/bin/sh\nexit 0\n')
+        os.chmod(ne, 0o644)
+        ddargs = opts + [infile, outfile, ne, specfile]
     if entry == 'launcher':
         argv = [common.PY, LAUNCHER, '--log', evlog, '--'] + ddargs
     elif entry == 'module':
@@ -94,7 +110,8 @@ def run_ddsmt(workdir, input_text, spec, opts=(), entry='launcher',
         env.update(env_extra)
     r = Run()
     r.workdir, r.infile, r.outfile, r.argv = workdir, infile, outfile, argv
-    r.in_sha_before = sha(open(infile, 'rb').read())
+    r.in_sha_before = sha(open(infile, 'rb').read()) if os.path.isfile(
+        infile) else None
     t0 = time.time()
     p = subprocess.Popen(argv, cwd=workdir, env=env, stdout=subprocess.PIPE,
                          stderr=subprocess.PIPE,
@@ -120,7 +137,8 @@ def run_ddsmt(workdir, input_text, spec, opts=(), entry='launcher',
     r.events = read_ndjson(evlog)
     r.cmdlog = read_ndjson(spec['log'])
     r.cmdlog_cc = read_ndjson(os.path.join(workdir, 'cmd_cc.log'))
-    r.in_sha_after = sha(open(infile, 'rb').read())
+    r.in_sha_after = sha(open(infile, 'rb').read()) if os.path.isfile(
+        infile) else None
     r.out_text = None
     if os.path.exists(outfile):
         with open(outfile, newline='') as f:
